@@ -16,7 +16,7 @@ import subprocess
 from vplib import coqtools, harness
 from vplib.common import log, VERIF, REPO
 
-IMPORTS = ("From Coq Require Import String.\nFrom VP Require Import Base.Tactics Base.Render Raft.Model Raft.Run.\n"
+IMPORTS = ("From Coq Require Import String.\nFrom VP Require Import Base.Tactics Base.Render Raft.Model Raft.Sync Raft.Run.\n"
            "Open Scope string_scope.\nOpen Scope Z_scope.\n")
 
 KINDS = ["RegisterWorker", "DeregisterWorker", "WorkerStatusChanged", "WorkerPipelinesUpdated", "GroupDeployed",
